@@ -115,7 +115,7 @@ def canon(out):
 def run(ctx):
     im = impl()
     rnd = ctx.rnd
-    nprog = ctx.n(90, 2000)
+    nprog = ctx.n(120, 6000)
     ninputs = 25 if ctx.quick() else 60
     profiles = [
         Profile(max_depth=2, max_arms=3, pred_depth=2, splitters=(2, 4), p_salt=0.7),
